@@ -24,6 +24,7 @@ import RotoV.Model.TcInferPinned
 import RotoV.Generated.C07Arms
 import RotoV.Lemmas.TcInferUnify
 import RotoV.Lemmas.TcInferSoundMain
+import RotoV.Lemmas.TcInferObls
 
 namespace RotoV.C07
 open RotoV.Typing RotoV.TcRules
@@ -462,8 +463,7 @@ example : C07Arms.exprArms.length = 20 := by decide
         a `Prefix`, which the declarative rules do not have), method calls,
         assignment and compound assignment, record literals, constructors of
         user enums, `match`, f-strings (and with them `resolve_obligations`:
-        the theorem speaks about the store BEFORE the obligations are
-        resolved);
+        for a body of the fragment the obligations stay empty — `inferFn_store`);
     (b) that a solution of the final store always exists (it does whenever the
         store is acyclic, which the occurs check maintains — not proved here);
     (c) constant items and whole programs (`TcInfer.checkProgM`).
@@ -471,15 +471,19 @@ example : C07Arms.exprArms.length = 20 := by decide
   constructs, accept / reject and class of the report). -/
 
 open RotoV.TcInfer in
-/-- **T3 `infer_sound_partial`** (function items, core fragment). -/
+/-- **T3 `infer_sound_partial`** (function items, core fragment): if the model
+    of `TypeChecker::function` accepts the item and the store it ends with has a
+    solution in ground types, the declarative checker accepts the item. -/
 theorem infer_sound_partial (env : Env) (henv : EnvPlain env) (p : Prog) (n : Nat)
     (params : List (Nat × Ty)) (rt : Ty) (body : Block)
     (hpp : (params.all fun q => plain q.2) = true) (hpr : plain rt = true) (hcb : coreB body = true)
-    (u : Unit) (st' : St) (h : inferFn env params rt body ⟨[], []⟩ = .ok u st') :
-    ∃ st1, inferFnBody env params rt body ⟨[], []⟩ = .ok () st1 ∧ runObligations env st1 = .ok u st' ∧
-      ((∃ σ : Val, GVal σ ∧ Sat σ st1.store) → checkDecl env p (.fn n params rt body) = .ok ()) := by
-  obtain ⟨st1, h1, h2⟩ := inferFn_split h
-  exact ⟨st1, h1, h2, fun ⟨σ, hσ, hs⟩ => inferFn_sound env henv p n params rt body hpp hpr hcb st1 h1 σ hσ hs⟩
+    (u : Unit) (st' : St) (h : inferFn env params rt body ⟨[], []⟩ = .ok u st')
+    (hsol : ∃ σ : Val, GVal σ ∧ Sat σ st'.store) :
+    checkDecl env p (.fn n params rt body) = .ok () := by
+  obtain ⟨st1, h1, h2⟩ := inferFn_store hcb h
+  obtain ⟨σ, hσ, hs⟩ := hsol
+  rw [h2] at hs
+  exact inferFn_sound env henv p n params rt body hpp hpr hcb st1 h1 σ hσ hs
 
 open RotoV.TcInfer in
 /-- … hence a function item the declarative rules reject is not accepted by the
@@ -488,9 +492,9 @@ theorem infer_rejects_what_rules_reject_partial (env : Env) (henv : EnvPlain env
     (params : List (Nat × Ty)) (rt : Ty) (body : Block)
     (hpp : (params.all fun q => plain q.2) = true) (hpr : plain rt = true) (hcb : coreB body = true)
     (hrej : checkDecl env p (.fn n params rt body) ≠ .ok ())
-    (st1 : St) (h : inferFnBody env params rt body ⟨[], []⟩ = .ok () st1) :
-    ¬ ∃ σ : Val, GVal σ ∧ Sat σ st1.store :=
-  fun ⟨σ, hσ, hs⟩ => hrej (inferFn_sound env henv p n params rt body hpp hpr hcb st1 h σ hσ hs)
+    (u : Unit) (st' : St) (h : inferFn env params rt body ⟨[], []⟩ = .ok u st') :
+    ¬ ∃ σ : Val, GVal σ ∧ Sat σ st'.store :=
+  fun hsol => hrej (infer_sound_partial env henv p n params rt body hpp hpr hcb u st' h hsol)
 
 open RotoV.TcInfer in
 /-- the same for ONE expression checked against an expected type, in any scope
@@ -515,7 +519,7 @@ open RotoV.TcInfer in
 example :
     let body : Block := .mk [.let_ 1 none (.intLit none)] (some (.neg (.bin .add (.var 0) (.var 1))))
     coreB body = true ∧
-    (match inferFnBody ⟨[], [], []⟩ [(0, .int .i8)] (.int .i8) body ⟨[], []⟩ with
+    (match inferFn ⟨[], [], []⟩ [(0, .int .i8)] (.int .i8) body ⟨[], []⟩ with
       | .ok _ st => satB ((List.range st.store.length).map fun _ => Ty.int .i8) st.store
       | _ => false) = true ∧
     (match inferFn ⟨[], [], []⟩ [(0, .int .u8)] (.int .u8) (.mk [] (some (.neg (.var 0)))) ⟨[], []⟩ with
